@@ -689,6 +689,43 @@ fn run_zero_sign_receivers(ctx: &Ctx) -> Report {
     })
 }
 
+// (h) instances with other periods on small-integer data ---------------------------------------------
+/// Instances of one kind with periods 1..=6, all fed small integers (so that different instances pass through
+/// bit-identical intermediate values - sums, squared deviations - again and again), first each alone, then
+/// interleaved round-robin on one thread: the outputs of each must be the same both times. A per-thread
+/// cache keyed on a value but not on the instance or its parameters shows here.
+fn run_small_int_neighbours(ctx: &Ctx) -> Report {
+    let jobs: Vec<Kind> = ALL_KINDS.to_vec();
+    let seed = ctx.seed;
+    let reps = ctx.pick(8u64, 160u64);
+    par_run(jobs, ctx.threads, move |kind, rep| {
+        for r in 0..reps {
+            let mut rng = Rng::derive(seed, 0xC05A, r * 97 + *kind as u64);
+            let len = 40;
+            let streams: Vec<Vec<Op>> = (1..=6usize)
+                .map(|_| (0..len).map(|_| { let v = rng.below(4) as f64; if kind.has_scalar() { Op::NextF(v) } else { Op::NextBar(Bar { o: v, h: v + rng.below(3) as f64, l: v - rng.below(2) as f64, c: v, v: rng.below(3) as f64 }) } }).collect())
+                .collect();
+            let ps: Vec<Params> = (1..=6usize).map(|n| variant(*kind, n)).collect();
+            // alone
+            let alone: Vec<Vec<Res>> = ps.iter().zip(&streams).map(|(p, s)| { let mut i = Inst::new(p); s.iter().map(|op| i.apply(op)).collect() }).collect();
+            // interleaved
+            let mut insts: Vec<Inst> = ps.iter().map(Inst::new).collect();
+            'outer: for k in 0..len {
+                for (j, inst) in insts.iter_mut().enumerate() {
+                    let got = inst.apply(&streams[j][k]);
+                    rep.evaluations += 1;
+                    if !res_bits_eq(&got, &alone[j][k]) {
+                        fail(rep, &ps[j], "disturbed_by_neighbour_with_other_parameters", "small_ints", format!("{}: fed small integers next to instances with periods 1..=6 of the same kind, step {} gives {:?}; fed alone {:?}", ps[j].label(), k + 1, got, alone[j][k]), &streams[j][..=k], &streams[j][..=k]);
+                        break 'outer;
+                    }
+                }
+            }
+            rep.count("small_int_neighbour_groups");
+            rep.distinct_by_construction += 1;
+        }
+    })
+}
+
 // (g) a pause in the feed ---------------------------------------------------------------------------
 /// Twins fed the same stream, one of them with a real pause of 1.1 s in the middle (one sleep for all of
 /// them): outputs may not depend on when the inputs arrive.
@@ -732,6 +769,9 @@ pub fn run(ctx: &Ctx) -> Report {
     let mut rep = Report::new();
     if ctx.phase_enabled("pause") {
         rep.merge(run_pause(ctx));
+    }
+    if ctx.phase_enabled("neighbours") {
+        rep.merge(run_small_int_neighbours(ctx));
     }
     if ctx.phase_enabled("zerosign") {
         rep.merge(run_zero_sign_receivers(ctx));
